@@ -105,6 +105,13 @@ func (t *TempoService) OutputQuery(binIds bool, rows *sql2.Rows) (chan *model.Sp
 	res := make(chan *model.SpanResponse)
 	go func() {
 		defer close(res)
+		defer rows.Close()
+		defer func() {
+			// stored payloads are not validated (empty payload, short ids): a decoding panic ends this trace, not the process
+			if err := recover(); err != nil {
+				fmt.Println("panic while decoding a span:", err)
+			}
+		}()
 		parser := fastjson.Parser{}
 		for rows.Next() {
 			var zipkin zipkinPayload
@@ -123,6 +130,8 @@ func (t *TempoService) OutputQuery(binIds bool, rows *sql2.Rows) (chan *model.Sp
 				span, serviceName, err = parseZipkinJSON(&zipkin, &parser, binIds)
 			case 2:
 				span, serviceName, err = parseOTLP(&zipkin)
+			default:
+				continue // unknown payload type: nothing to decode (a nil span would crash the encoders)
 			}
 			if err != nil {
 				fmt.Println(err)
